@@ -32,6 +32,8 @@ def main():
         return core.run_check(pid, tier, seed, only_space=spaces or None, time_cap=cap)
     if cmd == "pairs":
         return core.pairs_worker(*args[1:5])
+    if cmd == "seq":
+        return core.seq_worker(*args[1:4])
     if cmd == "replay":
         return core.replay(args[1])
     if cmd == "triage":
